@@ -160,7 +160,7 @@ Definition terminate_all (now : N) (l : list cell) : list cell :=
   map (fun c => if c_done c then c else mk_cell (c_ser c) (c_start c) now true) l.
 
 (** [nilf]: the tracer was built with a nil filter (NewBusyTimeTracer(nil)), which
-    admits every task. *)
+    lets every task pass. *)
 Definition bt_step (nilf : bool) (st : bt) (e : ev) : bt :=
   match e with
   | EStart id t pass =>
